@@ -110,6 +110,25 @@ Theorem c16_ws_disabled s h dl T :
   ws_message 0 = [] /\ closed (run (run s (ws_upgrade 0)) h) <> Some (ByTimeout DR dl, T).
 Proof. intros C NP F. split; [exact ws_message_disabled | exact (ws_disabled s h dl T C NP F)]. Qed.
 
+(* the client side (nbhttp.ClientConn, websocket.Dialer): what Do and onResponse do to the read deadline, and:
+   once the response has arrived and no idle timeout is configured, the request's deadline never closes anything *)
+Theorem c16_client_response_clears s h dl T :
+  closed s = None -> no_pending DR s -> Forall (fun o' => arms DR o' = false) h ->
+  (client_response 0 = [SetReadDeadline 0] /\
+   (forall idle, 0 < idle -> client_response idle = [KeepAlive DR idle]) /\
+   (forall t, 0 < t -> client_do t false = [KeepAlive DR t]) /\
+   (forall p, client_do 0 p = []) /\ (forall t, client_do t true = [])) /\
+  closed (run (run s (client_response 0)) h) <> Some (ByTimeout DR dl, T).
+Proof. intros C NP F. split; [exact client_ops | exact (client_response_clears s h dl T C NP F)]. Qed.
+
+(* a statement ABOUT THE CODE AS IT IS, not a requirement of C16: with Timeout = 0 and a second request in flight, the
+   first response sets the read deadline to the (past) instant at which the second request was sent, and the eager
+   runtime closes the connection with the read timeout at once *)
+Theorem c16_client_pipelined_timeout0 pref s tnext :
+  closed s = None -> pend s = [] -> wT s = None -> 0 < tnext -> tnext <= now s ->
+  closed (elapse pref 0 (run s (client_response_pending 0 tnext))) = Some (ByTimeout DR tnext, now s).
+Proof. exact (client_pipelined_timeout0 pref s tnext). Qed.
+
 (* every eager history is a primitive history *)
 Theorem c16_eager_is_primitive pref s h : run s (compile pref s h) = runE pref s h.
 Proof. exact (compile_run pref h s). Qed.
@@ -135,4 +154,6 @@ Print Assumptions c16_backlog_keeps.
 Print Assumptions c16_no_stale.
 Print Assumptions c16_keepalive.
 Print Assumptions c16_ws_disabled.
+Print Assumptions c16_client_response_clears.
+Print Assumptions c16_client_pipelined_timeout0.
 Print Assumptions c16_eager_is_primitive.
